@@ -1,6 +1,8 @@
 package main
 
 import (
+	"archive/tar"
+	"bytes"
 	"crypto/sha256"
 	"encoding/json"
 	"fmt"
@@ -15,6 +17,7 @@ import (
 	"time"
 
 	"github.com/containerd/log"
+	archive "github.com/moby/go-archive"
 	"golang.org/x/sys/unix"
 )
 
@@ -510,6 +513,11 @@ func runRaceJob(j *Job, res *JobResult) {
 		rep.Problems = append(rep.Problems, raceProblem{Op: -1, What: "stray", Msg: "solo phase left objects outside the operations' directories: " + s})
 	}
 	addRace("solo phase")
+	// the buffer pool after a copy that failed half way: every buffer must be in the pool at most once
+	if msg := racePoolProbe(); msg != "" {
+		rep.Problems = append(rep.Problems, raceProblem{Op: -1, What: "pool", Msg: msg})
+	}
+	rep.Counters["pool-probe"]++
 	if len(ops) > 0 {
 		rep.Sample = fmt.Sprintf("%s(%s) => %s", ops[0].kind, truncate(ops[0].desc, 120), truncate(solo[0].summary(), 200))
 	}
@@ -536,4 +544,31 @@ func runRaceJob(j *Job, res *JobResult) {
 	b, _ := json.Marshal(rep)
 	res.Extra = string(b)
 	res.Out = "ok"
+}
+
+
+// racePoolProbe provokes one failing buffered copy (an archive truncated inside a file body, extracted
+// into a scratch directory), then drains the copy-buffer pool through the verif hook: a buffer that comes
+// out twice was put back twice, and two later operations would share it.
+func racePoolProbe() string {
+	var buf bytes.Buffer
+	tw := tar.NewWriter(&buf)
+	body := bytes.Repeat([]byte("p"), 100<<10)
+	_ = tw.WriteHeader(&tar.Header{Name: "f", Typeflag: tar.TypeReg, Mode: 0o644, Size: int64(len(body))})
+	_, _ = tw.Write(body)
+	_ = tw.Close()
+	cut := buf.Bytes()[:512+40<<10]
+	dir, err := os.MkdirTemp("/", "poolprobe")
+	if err != nil {
+		return ""
+	}
+	defer os.RemoveAll(dir)
+	uerr := archive.Untar(bytes.NewReader(cut), dir, &archive.TarOptions{NoLchown: true})
+	if uerr == nil {
+		return "extraction of an archive cut inside a file body reported success"
+	}
+	if archive.VerifCopyPoolProbe(1024) {
+		return "after an extraction that failed inside a file body (" + truncate(uerr.Error(), 80) + ") the copy-buffer pool hands out the same buffer twice: it was put back twice, so two later operations can be given one buffer"
+	}
+	return ""
 }
